@@ -56,6 +56,13 @@ def _side_cfg(rng: Rng, names, extra_ok, allow_mixed, force=None, explicit_bias=
     assign = {n: rng.choice(['STS', 'MTS']) for n in names}
     if force:
         assign = {n: force for n in names}
+    else:
+        # ports whose names are equal up to letter case get different semantics more often than chance would have it
+        twins = Rng(rng.state, 'casefold-twins')
+        for a in names:
+            for b in names:
+                if a < b and a.casefold() == b.casefold() and twins.chance(70):
+                    assign[b] = 'MTS' if assign[a] == 'STS' else 'STS'
     sts = [n for n in names if assign[n] == 'STS']
     mts = [n for n in names if assign[n] == 'MTS']
     if style == 'explicit':
